@@ -131,6 +131,11 @@ func (e *pathEnv) knownNil(v ssa.Value) (known, isNil bool) {
 			}
 		}
 	}
+	if theWorld != nil {
+		if _, isCall := v.(*ssa.Call); isCall && theWorld.absint().definitelyNonNil(v) {
+			return true, false // fmt.Errorf, errors.New, constructors that always allocate
+		}
+	}
 	switch x := v.(type) {
 	case *ssa.Alloc, *ssa.MakeInterface, *ssa.MakeClosure, *ssa.MakeMap, *ssa.MakeChan, *ssa.FieldAddr, *ssa.IndexAddr, *ssa.Function, *ssa.Global:
 		return true, false
